@@ -82,6 +82,10 @@ def event(op, path, can_error=True, path2=None):
     if SIM.listener is not None:
         SIM.listener(label)
     f = SIM.fault
+    if f is not None and f.get("persistent") and f["kind"] == "io_error" and k > f["at"] and SIM.fired is not None and can_error:
+        # the condition persists (disk full, dead mount): every later operation that can fail, fails
+        SIM.fired["repeats"] = SIM.fired.get("repeats", 0) + 1
+        raise OSError(f.get("errno", errno.ENOSPC), "simulated persistent I/O error", label)
     if f is not None and f["at"] == k and SIM.fired is None:
         if f.get("label") is not None and f["label"] != label:
             SIM.fired = {"kind": "mismatch", "at": k, "label": label, "planned": f["label"]}
@@ -98,6 +102,8 @@ def event(op, path, can_error=True, path2=None):
         if kind == "torn":
             if op in ("write", "tofile"):
                 return "tear"
+            if op == "move" and path2 is not None and os.path.dirname(os.path.abspath(os.fspath(path))) != os.path.dirname(os.path.abspath(os.fspath(path2))):
+                return "tear"       # a move across directories may be a copy (other filesystem): it can die half-way
             SIM.fired = {"kind": "kill", "at": k, "label": label, "note": "torn-on-non-write"}
             die(SIM.fired)
         if kind == "io_error":
@@ -349,7 +355,16 @@ class _SimShutil:
 
     @staticmethod
     def move(src, dst, *a, **kw):
-        event("move", src, path2=dst)
+        act = event("move", src, path2=dst)
+        if act == "tear":
+            # cross-filesystem move = copy + unlink; the process dies while the copy is half done
+            f = SIM.fault
+            with _real_open(src, "rb") as a_, _real_open(dst, "wb") as b_:
+                data = a_.read()
+                p = _tear_len(f.get("tear"), len(data))
+                b_.write(data[:p])
+            SIM.fired = {"kind": "torn", "at": f["at"], "label": SIM.events[-1], "kept": p, "of": len(data), "note": "cross-directory move died mid-copy"}
+            die(SIM.fired)
         return _real["move"](src, dst, *a, **kw)
 
     @staticmethod
